@@ -3,7 +3,7 @@
 check of the property it breaks (plus the extra checks named in its meta.json under "also_run"), undo it, and record the verdicts in
 meta.json ("check_verdicts_now", "caught") and in seeded/MATRIX.md.  /repo is restored after every change."""
 import json, os, subprocess, sys, time
-V = "/verif"
+V = os.environ.get("VERIF_ROOT", "/verif")
 tier = "quick"
 vseeds = ["1"]
 ids = []
